@@ -346,19 +346,46 @@ def inline_aliases(fn, interesting):
                         for t, v in zip(tt.elts, n.value.elts):
                             if isinstance(t, ast.Name) and not isinstance(v, ast.Starred):
                                 defs[t.id] = v
-        elif isinstance(n, (ast.AugAssign, ast.For, ast.comprehension, ast.NamedExpr)):
+        elif isinstance(n, (ast.AugAssign, ast.For, ast.NamedExpr)):
             tg = n.target
             for t in _targets(tg):
                 if isinstance(t, ast.Name):
                     counts[t.id] = counts.get(t.id, 0) + 2
+        # (the targets of a comprehension live in the comprehension's own scope: they do not rebind a local of the
+        # function, they shadow it inside the comprehension - see `shadow` below)
     al = {k: v for k, v in defs.items() if counts.get(k) == 1 and interesting(v)}
     if not al:
         return fn
     new = clone(fn)
 
     class T(ast.NodeTransformer):
+        def __init__(self):
+            self.shadow = []
+
+        def _comp(self, n):
+            bound = {t.id for g in n.generators for t in ast.walk(g.target) if isinstance(t, ast.Name)}
+            # the first iterable is evaluated in the enclosing scope
+            if n.generators:
+                n.generators[0].iter = self.visit(n.generators[0].iter)
+            self.shadow.append(bound)
+            try:
+                for i, g in enumerate(n.generators):
+                    if i:
+                        g.iter = self.visit(g.iter)
+                    g.ifs = [self.visit(x) for x in g.ifs]
+                if isinstance(n, ast.DictComp):
+                    n.key = self.visit(n.key)
+                    n.value = self.visit(n.value)
+                else:
+                    n.elt = self.visit(n.elt)
+            finally:
+                self.shadow.pop()
+            return n
+
+        visit_ListComp = visit_SetComp = visit_GeneratorExp = visit_DictComp = _comp
+
         def visit_Name(self, n):
-            if isinstance(n.ctx, ast.Load) and n.id in al:
+            if isinstance(n.ctx, ast.Load) and n.id in al and not any(n.id in b for b in self.shadow):
                 return ast.copy_location(clone(al[n.id]), n)
             return n
 
